@@ -104,6 +104,7 @@ type pathState struct {
 	logWrites bool
 	writes   []*value
 	lastPanic string
+	exactItoa bool
 	ovfWatch bool
 	ovf      *smt.Term
 	trunc    *smt.Term
